@@ -304,15 +304,15 @@ pub fn streams() -> Vec<Box<dyn AnyStream>> {
         }),
         Box::new(Stream::<Case> {
             name: "terms",
-            quick: 15_000,
-            thorough: 600_000,
+            quick: 30_000,
+            thorough: 3_000_000,
             source: Source::Gen(Box::new(strategy)),
             check: Box::new(check),
         }),
         Box::new(Stream::<LCase> {
             name: "lexical",
-            quick: 15_000,
-            thorough: 600_000,
+            quick: 30_000,
+            thorough: 3_000_000,
             source: Source::Gen(Box::new(strategy_lexical)),
             check: Box::new(check_lexical),
         }),
